@@ -219,8 +219,9 @@ pub fn arb_quoted(realm: bool) -> BoxedStrategy<String> {
             // never end with an unescaped space or start with one unless wrapping is requested below
             let inner = s;
             match sel >> 2 {
-                1 if inner.len() + 2 <= 509 => format!("\"{}\"", inner),
-                2 if inner.len() + 2 <= 509 => format!(" {} ", inner),
+                // the limit applies to the stored text, not to the quotes / white space the constructor strips
+                1 => format!("\"{}\"", inner),
+                2 => format!(" {} ", inner),
                 // quoted-pair of a space as the very last unit
                 3 if inner.len() + 2 <= 509 => format!("{}\\ ", inner),
                 // longer runs of backslashes in front of what the constructor trims:
